@@ -32,7 +32,8 @@ vars == <<prog, fi, ci, ph, cur, diags>>
 
 Kinds  == {"ctor1", "ctor2", "other", "pmeth", "ometh", "init", "pkgvar", "pkgdecl"}
 Stmts  == {"lit", "addrLit", "elidedVal", "elidedPtr", "elidedMap", "new", "varZero", "varPtr", "varBlank", "onU",
-           "lit2", "new2", "varZero2"}   \* the same on T2, a second type of d with `@constructor NewT2` (iff T is annotated)
+           "lit2", "new2", "varZero2",
+           "litRec", "newRec", "varRec"}   \* on d.Rec, an exported alias of the unexported type rec with `@constructor newRec` (iff T is annotated)   \* the same on T2, a second type of d with `@constructor NewT2` (iff T is annotated)
 Nests  == {"none", "if", "else", "for", "range", "switch", "select", "funclit", "defer", "go", "label",
            "funcassign", "funcvar", "funcarg", "funcfield", "block", "ifinit", "typeswitch"}
 Spells == {"direct", "alias", "alias3", "rename", "paren"}
@@ -47,7 +48,7 @@ Cont(k, s, n, sp) == [kind |-> k, stmt |-> s, nest |-> n, sp |-> sp]
 Valid(c, pkg) ==
   /\ (c.kind = "pmeth" => pkg = "d")
   /\ (c.kind = "pkgdecl" => c.stmt \in {"lit", "addrLit", "new", "varZero", "varPtr", "elidedVal"} /\ c.nest = "none")
-  /\ (c.stmt \in {"lit2", "new2", "varZero2"} => c.sp = "direct")
+  /\ (c.stmt \in {"lit2", "new2", "varZero2", "litRec", "newRec", "varRec"} => c.sp = "direct")
   /\ (c.stmt = "onU" => c.sp \in {"direct", "fnalias"})
   /\ (c.sp = "fnalias" => c.kind \in {"ctor1", "other", "init", "ometh"})
   /\ (c.sp = "paren" => c.stmt \in {"new", "varZero", "varPtr", "varBlank"})
@@ -56,9 +57,9 @@ Valid(c, pkg) ==
 FnName(c) == CASE c.kind = "ctor1" -> "NewT" [] c.kind = "ctor2" -> "MakeT" [] c.kind = "init" -> "init"
                [] c.kind \in {"pkgvar", "pkgdecl"} -> "" [] OTHER -> "fn"
 
-CtorCode(s) == CASE s \in {"lit", "addrLit", "elidedVal", "elidedPtr", "elidedMap", "lit2"} -> "CTOR01"
-                 [] s \in {"new", "new2"} -> "CTOR02" [] s \in {"varZero", "varZero2"} -> "CTOR03" [] OTHER -> "none"
-OnT2(s) == s \in {"lit2", "new2", "varZero2"}
+CtorCode(s) == CASE s \in {"lit", "addrLit", "elidedVal", "elidedPtr", "elidedMap", "lit2", "litRec"} -> "CTOR01"
+                 [] s \in {"new", "new2", "newRec"} -> "CTOR02" [] s \in {"varZero", "varZero2", "varRec"} -> "CTOR03" [] OTHER -> "none"
+OnT2(s) == s \in {"lit2", "new2", "varZero2", "litRec", "newRec", "varRec"}   \* not a type NewT / MakeT construct
 
 Verdict(c, ann, pkg) ==
   IF /\ ann.ctors # <<>>
@@ -132,7 +133,8 @@ Seen(c) == ~("NoUnalias" \in Deviations /\ c.sp \in {"alias", "alias3", "fnalias
 VisitVerdict(c) ==
   LET code == CtorCode(c.stmt)
       ownPkg == prog.pkg = "d" \/ "CtorAnyPkg" \in Deviations
-      ctorsOfType == IF OnT2(c.stmt) /\ ~("CtorAnyType" \in Deviations) THEN {"NewT2"} ELSE Range(prog.ann.ctors)
+      ctorsOfType == IF c.stmt \in {"litRec", "newRec", "varRec"} THEN {"newRec"}
+                     ELSE IF OnT2(c.stmt) /\ ~("CtorAnyType" \in Deviations) THEN {"NewT2"} ELSE Range(prog.ann.ctors)
       exempt == ownPkg /\ cur \in ctorsOfType
   IN IF prog.ann.ctors = <<>> \/ code = "none" \/ ~Seen(c) \/ exempt THEN "none" ELSE code
 
